@@ -63,6 +63,21 @@ Theorem hdf5_subset_repeated_id_refused : forall ids_ a f,
 Proof. exact hdf5_subset_dup_refused_proof. Qed.
 Print Assumptions hdf5_subset_repeated_id_refused.
 
+(* The request may be any iterable (repaired as F45: a set used to be refused with TypeError);
+   only its elements matter, see hdf5_subset_order_irrelevant.
+   parse_table / parse_biom_table on an open HDF5 handle = the default variant; an unknown id
+   surfaces as TypeError (the reader swallows the ValueError and then tries to read the handle as JSON) *)
+Theorem parse_table_h5_eq : forall ids_ a f,
+  wf_file f -> NoDup ids_ -> ids_ <> [] -> (forall i, In i ids_ -> In i (file_ids a f)) ->
+  parse_table_h5 ids_ a f = ROk (drop_empty_other a (filter_ids ids_ a (from_hdf5_all f))).
+Proof. exact parse_table_h5_eq_proof. Qed.
+Print Assumptions parse_table_h5_eq.
+
+Theorem parse_table_h5_refuses : forall ids_ a f,
+  wf_file f -> (exists i, In i ids_ /\ ~ In i (file_ids a f)) -> parse_table_h5 ids_ a f = RErr E_TYPE.
+Proof. exact parse_table_h5_refuses_proof. Qed.
+Print Assumptions parse_table_h5_refuses.
+
 (* ================================================================== HDF5, metadata-free variant *)
 (* subset_with_metadata=False: the same ids and matrix, no metadata, no type, and the vectors
    emptied by the subset are KEPT. *)
